@@ -8,7 +8,7 @@ Set Extraction KeepSingleton.
 Extraction "mtbl_model.ml"
   varint_length varint_length_packed varint_encode32 varint_encode64
   varint_decode32 varint_decode64 fixed_encode32 fixed_encode64 fixed_decode32 fixed_decode64
-  bcmp sep lcp is_prefix crc32c_ref crc_slicing
+  bcmp sep lcp is_prefix crc32c_ref crc_slicing crc_sse42
   writer_session writer_init writer_add writer_finish writer_chunks writer_bytes clamp_block_size metadata_read metadata_write
   write_chunks write_all error_met
   reader_open reader_iter reader_get reader_get_prefix reader_get_range reader_iter_seek reader_iter_next
